@@ -19,8 +19,11 @@ use std::collections::BTreeMap;
 use std::fmt::Write as FmtWrite;
 
 mod app;
+mod db;
 mod link;
+mod master;
 mod outstation;
+mod pair;
 
 pub(crate) struct Script {
     pub(crate) id: String,
@@ -177,6 +180,9 @@ fn run_script(script: &Script) -> Vec<String> {
                     "twriter" => link::run_twriter(script, &mut obs).await,
                     "app" => app::run_app(script, &mut obs).await,
                     "outstation" => outstation::run_outstation(script, &mut obs).await,
+                    "db" => db::run_db(script, &mut obs).await,
+                    "master" => master::run_master(script, &mut obs).await,
+                    "pair" => pair::run_pair(script, &mut obs).await,
                     other => obs.push(format!("unknown-engine {}", other)),
                 }
             })
